@@ -20,6 +20,8 @@ func c01Sweep() []frame {
 		{"mixed special", specialContent}, {"C0 controls", "\x01\x1f"}, {"DEL", "\x7f"}, {"astral", "\U0001F600"},
 		{"mandated escapes", "\"\\\n\r\t\b\f"}, {"3000 bytes", strings.Repeat("x<", 1500)},
 		{"U+FFFD", "\ufffd"}, {"html", "<script>alert('&amp;')</script>"}, {"json in content", `{"a":["b"]}`}, {"plain", "gm"},
+		// text that LOOKS like a JSON escape: a literal backslash followed by u003c / u2028 / u0026 (someone quoting code)
+		{"literal backslash-u text", `a\u003cb \u2028 \u0026 \\u003e \u0041`}, {"backslash at the end", `x\`},
 	}
 	kinds := []int64{1, 0, 20001, 30023, 65535}
 	created := []int64{1700000000, 0, 1, 1 << 31, 1 << 53}
